@@ -63,7 +63,7 @@ def _cond_def(prog: dict, c: int, role: str, owner: int, params: List[str], inde
         elif rv == "coro" and owner_async:
             lines.append("{}def cond_{}({}):".format(indent, c, sig))
             lines.append("{}    return H.cond_async({}, {!r}, {}, {})".format(indent, c, role, owner, kw))
-        elif rv == "future":
+        elif rv in ("future", "futureraise"):
             lines.append("{}def cond_{}({}):".format(indent, c, sig))
             lines.append("{}    return H.cond_future({}, {!r}, {}, {})".format(indent, c, role, owner, kw))
         else:
